@@ -2,14 +2,14 @@
 REG_DRAFT = dict(
     engine='E1-enum',
     technique='bounded-exhaustive enumeration of syntax trees x layouts (every <=k-gap deviation from the canonical layout over an 8-separator alphabet, string-literal content variants), differential oracle on the real formatter and the real parser',
-    text='Every tree of a depth-1/depth-2 production set and of a definition-level item set (signatures swept across the 100-column wrap limit, methods, enums, structs, tests, imports, doc comments, item pairs) is rendered under every layout with <=1 (quick) / <=2 (thorough, on the representative subset) gaps deviating from the canonical layout, gap alphabet {glued, 1 space, 3 spaces, newline, newline+indent, blank lines, line comment, tab}, and with every string literal replaced by multi-line / brace-line / `//` contents. Layouts the real parser does not map to the same tree are dropped and counted. Oracle: the formatter output parses without errors to the same tree (Debug form, ids/positions/comma positions blanked: identifiers, literal values, string contents, doc comments), has the same ordered comment texts, and differs from the input only in whitespace and commas. Exhaustive within these bounds.',
+    text='Every tree of a depth-1/depth-2 production set and of a definition-level item set (signatures swept across the 100-column wrap limit, methods, enums, structs, tests, imports, doc comments, item pairs) is rendered under every layout with <=1 (quick) / <=2 (thorough, on the representative subset) gaps deviating from the canonical layout, gap alphabet {glued, 1 space, 3 spaces, newline, newline+indent, blank lines, line comment, tab}, and with every string literal (each literal position, and all at once) replaced by multi-line / brace-at-line-start / `//` / blank-line contents. Layouts the real parser does not map to the same tree are dropped and counted. Oracle: the formatter output parses without errors to the same tree (Debug form, ids/positions/comma positions blanked: identifiers, literal values, string contents, doc comments), has the same ordered comment texts, and differs from the input only in whitespace and commas. Exhaustive within these bounds.',
     note='The parser is trusted as the judge of "same tree" on both sides (it is checked against the printer by C33). Layouts with more simultaneous deviations than the bound, gap separators outside the alphabet (CR, form feed, block comments do not exist) and trees deeper than the sets are not covered.',
     design_ref='DESIGN.md §6 C17 / C18',
 )
 
 import os
 import re
-from .. import gast, gen, layout
+from .. import gast, gen, layout, rustdbg
 from ..core import Machinery
 
 ERASE = {ord(c): None for c in " \t\n\r,"}
@@ -23,11 +23,13 @@ def depth2_quick():
     S2 = [("Let", ("Sym", "v"), None, X), ("Return", X), ("Break",)]
     B2 = gen.bodies(O2 + S2, [X, ("If", X, [Y], None)])
     small = [X, ("Call", X, [Y])]
-    return [t for t in gen.productions(O2, B2, S2, arg_pool=O2, small=small) if t[0] != "Bin" or t[2] in ("-", "<", "**", "&&", "^")]
+    keep = lambda t: ((t[0] != "Bin" or t[2] in ("-", "<", "**", "&&", "^")) and (t[0] != "For" or t[1] == ("Sym", "v"))
+                      and (t[0] != "Match" or len(t[2]) < 2 or t[2][0][0][0] != "Pair"))
+    return [t for t in gen.productions(O2, B2, S2, arg_pool=O2, small=small) if keep(t)]
 
 
-def base_groups(ctx):
-    """The explored space as [(group name, [Base], k)]. Shared by C17, C18 and (<=1 deviation part) C23."""
+def base_groups(ctx, full_depth2=True):
+    """The explored space as [(group name, [Base], k)]. Shared by C17 and C18 (C18 thorough keeps the quick depth-2 set)."""
     quick = ctx.quick
     groups = []
 
@@ -37,7 +39,7 @@ def base_groups(ctx):
     d1 = [layout.program_of(t) for t in (layout.quick_trees() if quick else gen.depth1())]
     b1 = mk(d1)
     groups.append(("depth1", b1, 1))
-    d2 = [layout.program_of(t) for t in (depth2_quick() if quick else gen.depth2())]
+    d2 = [layout.program_of(t) for t in (depth2_quick() if quick or not full_depth2 else gen.depth2())]
     b2 = mk(d2)
     groups.append(("depth2", b2, 1))
     reps = mk([layout.program_of(t) for t in layout.rep_trees() + layout.string_position_trees()])
@@ -45,10 +47,18 @@ def base_groups(ctx):
     items = mk(layout.definition_items(quick))
     groups.append(("definitions", items, 1))
     # string-literal content variants: every literal position of every base that has one
-    with_str = [b for b in b1 + reps + items + (b2 if not quick else []) if b.str_positions()]
+    items_str = [b for b in items if b.str_positions()]
+    if quick:
+        items_str = [b for b in items_str if b.kind.startswith("Import")] + [b for b in items_str if not b.kind.startswith("Import")][::5]
+    with_str = [b for b in b1 + reps if b.str_positions()] + items_str
     variants = []
+    in_b1 = {id(b) for b in b1}
     for b in with_str:
-        variants += layout.string_variants(b)
+        vs = layout.string_variants(b)
+        if quick and id(b) in in_b1 and len(b.str_positions()) > 1:
+            # quick: depth-1 trees with several literals get every position for the multi-line content only, the other contents all at once
+            vs = [v for v in vs if v.variant.startswith("multi-line") or v.variant.endswith("@all")]
+        variants += vs
     ok, rejected = layout.derive(ctx, variants)
     if rejected:
         ctx.outcome("string-variant:canonical text does not parse (dropped)", rejected)
@@ -56,9 +66,10 @@ def base_groups(ctx):
         raise Machinery("no string-literal variant parsed")
     groups.append(("string-variants", ok, 1))
     if not quick:
-        small = [b for b in ok if b.label in {r.label for r in reps}]
+        rep_labels = {r.label for r in reps}
+        small = [b for b in ok if b.label in rep_labels]
         groups.append(("string-variants-2dev", small, 2))
-        groups.append(("definitions-2dev", [b for b in items if len(b.pieces) <= 14], 2))
+        groups.append(("definitions-2dev", [b for b in items if len(b.pieces) <= 10], 2))
     # development knobs (never set by ./gv): restrict to some groups / a stride of each group
     only = os.environ.get("GV_LAYOUT_GROUPS")
     stride = int(os.environ.get("GV_LAYOUT_STRIDE", "1"))
@@ -83,16 +94,16 @@ def what_changed(a_ast, f_ast):
     for ma, mf in zip(LIT_RE.finditer(a_ast), LIT_RE.finditer(f_ast)):
         if ma.group(2) != mf.group(2):
             what = LIT_NAME[ma.group(1)]
-            x, y = ma.group(2), mf.group(2)
-            if re.sub(r"\\n[ \\t]*", r"\\n", x.replace("\\t", "\t")) == re.sub(r"\\n[ \\t]*", r"\\n", y.replace("\\t", "\t")):
+            x, y = rustdbg._unescape('"' + ma.group(2) + '"'), rustdbg._unescape('"' + mf.group(2) + '"')
+            ind = lambda z: re.sub(r"\n[ \t]*", "\n", z)
+            nl = lambda z: re.sub(r"\n+", "\n", z)
+            if ind(x) == ind(y):
                 return what, "continuation line of a multi-line literal re-indented"
-            if re.sub(r"(\\n)+", r"\\n", x) == re.sub(r"(\\n)+", r"\\n", y):
+            if nl(x) == nl(y):
                 return what, "blank line inserted or removed inside a multi-line literal"
-            ind = lambda z: re.sub(r"\\n[ \\t]*", r"\\n", z.replace("\\t", "\t"))
-            nl = lambda z: re.sub(r"(\\n)+", r"\\n", z)
             if nl(ind(x)) == nl(ind(y)):
-                return what, "continuation line re-indented and blank line inserted inside a multi-line literal"
-            if re.sub(r"(\\n|\\t|\s)+", "", x) == re.sub(r"(\\n|\\t|\s)+", "", y):
+                return what, "continuation line re-indented and blank line inserted or removed inside a multi-line literal"
+            if re.sub(r"\s+", "", x) == re.sub(r"\s+", "", y):
                 return what, "whitespace inside a literal changed"
             return what, "literal text changed"
     return "tree", "structure differs"
@@ -109,6 +120,8 @@ class FormatCache:
         self.ctx, self.want, self.d, self.jobs = ctx, want, {}, 0
 
     def fill(self, texts):
+        if len(self.d) > 400000:      # bound the memory of a thorough run; entries are recomputed on demand
+            self.d.clear()
         todo = [t for t in dict.fromkeys(texts) if t not in self.d]
         res = self.ctx.pool.map([{"op": "front", "src": t, "want": self.want} for t in todo], batch=64, timeout=60)
         self.jobs += len(todo)
@@ -119,14 +132,13 @@ class FormatCache:
     def digest(r):
         if "parse_errors" not in r:
             return {"failed": str(r)[:300]}
-        return {"errors": [e["message"] for e in r["parse_errors"]], "ast": layout.h(r.get("ast_blank", "")), "comments": comment_texts(r) if "comments" in r else None,
-                "formatted": r.get("formatted")}
+        return {"errors": [e["message"] for e in r["parse_errors"]], "comments": comment_texts(r) if "comments" in r else None, "formatted": r.get("formatted")}
 
 
 def run(ctx):
     groups = base_groups(ctx)
-    cache = FormatCache(ctx, ["ast_blank", "comments"])
-    n_layouts = n_same = n_changed = n_comment = n_multiline = n_wrapped = n_jobs = 0
+    cache = FormatCache(ctx, ["comments"])
+    n_layouts = n_same = n_changed = n_comment = n_multiline = n_wrapped = n_jobs = n_tree_jobs = 0
     status = {}
     for gname, bases, k in groups:
         ctx.bound(f"{gname}: programs", len(bases))
@@ -135,9 +147,16 @@ def run(ctx):
 
         def settle():
             nonlocal pending
+            nonlocal n_tree_jobs
             cache.fill([r["formatted"] for _, _, _, r in pending])
+            # tree of the output against the tree of the canonical text (== the tree of the input: the layout is in class "same")
+            keys = list(dict.fromkeys((id(b), r["formatted"]) for b, _, _, r in pending))
+            canon = {id(b): b.canon for b, _, _, _ in pending}
+            diff = layout.tree_pairs_differ(ctx, [(canon[i], F) for i, F in keys])
+            n_tree_jobs += len(keys)
+            differs = {keys[j] for j in diff}
             for b, d, t, r in pending:
-                judge(ctx, cache, gname, b, d, t, r)
+                judge(ctx, cache, gname, b, d, t, r, (id(b), r["formatted"]) in differs)
             pending = []
 
         for b, d, t, r, st in layout.explore(ctx, bases, k, ["comments", "format"]):
@@ -153,7 +172,7 @@ def run(ctx):
             F = r["formatted"]
             if r["comments"]:
                 n_comment += 1
-            if "multi-line" in b.variant or "brace-line" in b.variant:
+            if b.variant.startswith(("multi-line", "brace-line", "blank-lines")):
                 n_multiline += 1
             if F == t:
                 continue
@@ -177,7 +196,7 @@ def run(ctx):
         raise Machinery(f"vacuous exploration: changed={n_changed} comments={n_comment} multiline={n_multiline} wrapped={n_wrapped}")
     if status.get("tree-changed", 0) == 0 or status.get("parse-error", 0) == 0:
         raise Machinery("no layout was rejected by the parser: the layout classifier is not looking at the real parse")
-    ctx.add(states=n_same, transitions=n_jobs + cache.jobs, nontrivial=n_changed)
+    ctx.add(states=n_same, transitions=n_jobs + cache.jobs + n_tree_jobs, nontrivial=n_changed)
     ctx.bound("gap alphabet", [layout.GAP_NAME[g] for g in layout.GAPS])
     ctx.bound("string contents", ["plain"] + [n for n, _ in layout.STR_VARIANTS])
     ctx.assume("the real parser decides whether a layout denotes the same tree as the canonical text; layouts it maps to another tree or rejects are outside the explored set (counted under layout:*)")
@@ -205,7 +224,7 @@ def next_piece(b, d, t):
     return "?"
 
 
-def judge(ctx, cache, gname, b, d, t, r):
+def judge(ctx, cache, gname, b, d, t, r, tree_differs):
     F = r["formatted"]
     fr = cache.d[F]
     detail = {"group": gname, "kind": b.kind, "program": b.label, "variant": b.variant, "deviation": layout.dev_name(b, d),
@@ -218,8 +237,12 @@ def judge(ctx, cache, gname, b, d, t, r):
     elif fr["errors"]:
         sig = "parse error: " + re.sub(r"`[^`]*`", "`..`", fr["errors"][0])[:80]
         detail["parse_errors"] = fr["errors"][:3]
-    elif fr["ast"] != layout.h(b.ast):
+    elif tree_differs:
         r2 = ctx.pool.one({"op": "front", "src": F, "want": ["ast_blank"]})
+        if r2.get("ast_blank") == b.ast:
+            # structural equality also looks at the derived `value_is_used` flag, which the blanked dump hides: not a difference of meaning
+            ctx.outcome("trees differ only in derived flags (not flagged)")
+            return
         what, effect = what_changed(b.ast, r2.get("ast_blank", ""))
         sig = f"{what}: {effect}"
         if what == "tree":
